@@ -174,6 +174,27 @@ func (c *Ctx) execInstr(in ssa.Instruction, st *State) {
 				}
 			}
 		}
+		// a non-blocking select on ctx.Done(): remember in the built-in ghost field
+		// ctxCancelSeen(0) that the cancellation branch was taken (contracts can then say
+		// "unless the call was cancelled")
+		if !x.Blocking && len(x.States) == 1 {
+			if call, ok := x.States[0].Chan.(*ssa.Call); ok && call.Common().IsInvoke() && call.Common().Method.Name() == "Done" {
+				g := c.P.CS.Ghosts["ctxCancelSeen"]
+				if g == nil {
+					g = &GhostDecl{Kind: "field", Name: "ctxCancelSeen", Params: []Param{{"x", "int"}}, Ret: "bool"}
+					c.P.CS.Ghosts["ctxCancelSeen"] = g
+				}
+				name := "G|ctxCancelSeen"
+				sort := c.ghostMapSort(g)
+				c.registerMap(name, sort)
+				m := c.lookup(st, name)
+				key := c.idxConst(0)
+				taken := sEq(v.F[0].S, c.intConst(big.NewInt(0), types.Typ[types.Int]))
+				st.over[name] = c.define("gc", sort, "(store "+m+" "+key+" "+sOr("(select "+m+" "+key+")", taken)+")")
+				c.set(x, v)
+				return
+			}
+		}
 		c.drop("select")
 		c.set(x, v)
 	case *ssa.Send:
